@@ -98,6 +98,20 @@ let parse_ops c : op list =
     | "rmaux" -> OpRemoveAux
     | "setmd" -> OpSetMetadata (parse_md c)
     | "addmd" -> let l = n_of_string (next c) in let b = bytes_of_hex (next c) in OpAddMetadatum (l, b)
+    | "addjson" ->                                      (* add_json_metadatum_with_schema: label, schema, JSON text, converted value *)
+      let l = n_of_string (next c) in let _schema = next c in let _json = next c in
+      let b = bytes_of_hex (next c) in OpAddMetadatum (l, b)
+    | "setauxw" ->                                      (* set_auxiliary_data(AuxiliaryData::from_bytes(wire form)) *)
+      let optmd () = (match next c with "~" -> None | _ -> c.pos <- c.pos - 1; Some (parse_md c)) in
+      let optl () = (match next c with "~" -> None | k -> Some (rep (int_of_string k) (fun () -> bytes_of_hex (next c)))) in
+      (match next c with
+       | "s" -> OpSetAuxDecoded (WShelley (parse_md c))
+       | "m" -> let md = parse_md c in let ns = bytes_of_hex (next c) in OpSetAuxDecoded (WShelleyMA (md, ns))
+       | _ ->
+         let md = optmd () in
+         let ns = (match next c with "~" -> None | h -> Some (bytes_of_hex h)) in
+         let v1 = optl () in let v2 = optl () in let v3 = optl () in
+         OpSetAuxDecoded (WAlonzo (md, ns, v1, v2, v3)))
     | t -> failwith ("case syntax: operation " ^ t))
 
 let show_verdict = function
